@@ -1,0 +1,161 @@
+//! Verification hook, compiled only with `--cfg orx_concurrent_iter_verif`.
+//!
+//! Drop-in replacements for the two std atomic types the crate uses.
+//! Every operation is forwarded to the real std atomic; if an observer has been installed,
+//! it is told about the access before it happens (a scheduling point for a deterministic
+//! scheduler living outside of this crate) and after it happened (address, kind, ordering, values).
+//! Without an observer the types behave exactly as the std ones.
+
+use std::sync::atomic::{self as std_atomic, Ordering};
+use std::sync::OnceLock;
+
+/// Kind of an atomic access.
+#[derive(Clone, Copy, Debug, PartialEq, Eq)]
+pub enum AccessKind {
+    /// `load`
+    Load,
+    /// `store`
+    Store,
+    /// `fetch_add`
+    FetchAdd,
+}
+
+/// One atomic access as reported to the observer.
+#[derive(Clone, Copy, Debug)]
+pub struct Access {
+    /// address of the atomic
+    pub addr: usize,
+    /// true for `AtomicBool`, false for `AtomicUsize`
+    pub is_bool: bool,
+    /// kind of the access
+    pub kind: AccessKind,
+    /// memory ordering passed by the crate
+    pub ordering: Ordering,
+    /// value read (load, fetch_add), 0 for a store
+    pub read: usize,
+    /// argument (fetch_add: addend, store: new value), 0 for a load
+    pub arg: usize,
+}
+
+/// Observer of atomic accesses.
+pub trait Observer: Send + Sync {
+    /// Called before the access is performed; may block.
+    fn before(&self, addr: usize, is_bool: bool, kind: AccessKind, ordering: Ordering, arg: usize);
+    /// Called right after the access has been performed.
+    fn after(&self, access: &Access);
+}
+
+static OBSERVER: OnceLock<Box<dyn Observer>> = OnceLock::new();
+
+/// Installs the process-wide observer; returns false if one was already installed.
+pub fn set_observer(observer: Box<dyn Observer>) -> bool {
+    OBSERVER.set(observer).is_ok()
+}
+
+#[inline(always)]
+fn before(addr: usize, is_bool: bool, kind: AccessKind, ordering: Ordering, arg: usize) {
+    if let Some(o) = OBSERVER.get() {
+        o.before(addr, is_bool, kind, ordering, arg);
+    }
+}
+
+#[inline(always)]
+fn after(addr: usize, is_bool: bool, kind: AccessKind, ordering: Ordering, read: usize, arg: usize) {
+    if let Some(o) = OBSERVER.get() {
+        o.after(&Access {
+            addr,
+            is_bool,
+            kind,
+            ordering,
+            read,
+            arg,
+        });
+    }
+}
+
+/// Reporting replacement of `std::sync::atomic::AtomicUsize`.
+#[derive(Debug, Default)]
+pub struct AtomicUsize(std_atomic::AtomicUsize);
+
+impl From<usize> for AtomicUsize {
+    fn from(value: usize) -> Self {
+        Self(value.into())
+    }
+}
+
+impl AtomicUsize {
+    /// See `std::sync::atomic::AtomicUsize::new`.
+    pub const fn new(value: usize) -> Self {
+        Self(std_atomic::AtomicUsize::new(value))
+    }
+
+    #[inline(always)]
+    fn addr(&self) -> usize {
+        &self.0 as *const _ as usize
+    }
+
+    /// See `std::sync::atomic::AtomicUsize::fetch_add`.
+    #[inline(always)]
+    pub fn fetch_add(&self, val: usize, order: Ordering) -> usize {
+        before(self.addr(), false, AccessKind::FetchAdd, order, val);
+        let read = self.0.fetch_add(val, order);
+        after(self.addr(), false, AccessKind::FetchAdd, order, read, val);
+        read
+    }
+
+    /// See `std::sync::atomic::AtomicUsize::load`.
+    #[inline(always)]
+    pub fn load(&self, order: Ordering) -> usize {
+        before(self.addr(), false, AccessKind::Load, order, 0);
+        let read = self.0.load(order);
+        after(self.addr(), false, AccessKind::Load, order, read, 0);
+        read
+    }
+
+    /// See `std::sync::atomic::AtomicUsize::store`.
+    #[inline(always)]
+    pub fn store(&self, val: usize, order: Ordering) {
+        before(self.addr(), false, AccessKind::Store, order, val);
+        self.0.store(val, order);
+        after(self.addr(), false, AccessKind::Store, order, 0, val);
+    }
+}
+
+/// Reporting replacement of `std::sync::atomic::AtomicBool`.
+#[derive(Debug, Default)]
+pub struct AtomicBool(std_atomic::AtomicBool);
+
+impl From<bool> for AtomicBool {
+    fn from(value: bool) -> Self {
+        Self(value.into())
+    }
+}
+
+impl AtomicBool {
+    /// See `std::sync::atomic::AtomicBool::new`.
+    pub const fn new(value: bool) -> Self {
+        Self(std_atomic::AtomicBool::new(value))
+    }
+
+    #[inline(always)]
+    fn addr(&self) -> usize {
+        &self.0 as *const _ as usize
+    }
+
+    /// See `std::sync::atomic::AtomicBool::load`.
+    #[inline(always)]
+    pub fn load(&self, order: Ordering) -> bool {
+        before(self.addr(), true, AccessKind::Load, order, 0);
+        let read = self.0.load(order);
+        after(self.addr(), true, AccessKind::Load, order, read as usize, 0);
+        read
+    }
+
+    /// See `std::sync::atomic::AtomicBool::store`.
+    #[inline(always)]
+    pub fn store(&self, val: bool, order: Ordering) {
+        before(self.addr(), true, AccessKind::Store, order, val as usize);
+        self.0.store(val, order);
+        after(self.addr(), true, AccessKind::Store, order, 0, val as usize);
+    }
+}
